@@ -14,6 +14,7 @@ import (
 	"sync"
 	"sync/atomic"
 	"testing"
+	"time"
 
 	"github.com/scigolib/hdf5/verif/vt"
 	"pgregory.net/rapid"
@@ -31,6 +32,7 @@ var (
 	aloneWallMax  = 300.0                       // a starved re-run is extended up to here until it has had its CPU
 	earlyHangCPU  = 2.0                         // after this much CPU a slow case is sampled; a *known* hang signature ends the attempt
 	minimizeEvals = 60
+	minimizeWall  = 90 * time.Second // minimisation is a convenience: time-boxed, the unminimised case is a valid replay too
 )
 
 // ---- known findings: signature -> id, read from known.d (the "match" field carries the signatures) -------------
@@ -392,8 +394,9 @@ func (e *engine) minimize(c Case, sig string) Case {
 	if strings.HasPrefix(sig, "hang") {
 		limit = 4
 	}
+	t0 := time.Now()
 	still := func(cc Case) bool {
-		if evals >= limit {
+		if evals >= limit || time.Since(t0) > minimizeWall {
 			return false
 		}
 		evals++
